@@ -36,8 +36,10 @@ def _binding_cases(draw):
     utype = draw(st.sampled_from(["root", "key_mgr"]))
     role = draw(st.sampled_from([r for r in ["root", "key_mgr", "pkg_mgr", "x"] if r != utype]))
     thr = draw(st.integers(1, len(seeds)))
+    same_rule = draw(st.booleans())     # both roles delegated to the very same key set and threshold (one key pair for two roles)
     T = GM.wrap(GM.signed_part(draw(st.sampled_from(["root", "key_mgr"])), {
-        role: {"pubkeys": pubs, "threshold": thr}, utype: {"pubkeys": pubs[:1], "threshold": 1}}, version=2))
+        role: {"pubkeys": pubs, "threshold": thr},
+        utype: {"pubkeys": list(pubs), "threshold": thr} if same_rule else {"pubkeys": pubs[:1], "threshold": 1}}, version=2))
     payload = draw(GM.signed_parts(pubs, type_=utype))
     U = GM.wrap(payload)
     GM.sign_envelope(U, seeds[:draw(st.integers(thr, len(seeds)))], gpg)
@@ -57,6 +59,14 @@ def check_binding(case):
     role, U, T, gpg = case["role"], case["U"], case["T"], case["gpg"]
     if ref_schema.signed_is_delegating(U["signed"]) != "yes" or U["signed"]["type"] == role:
         raise Violation("harness: case is not a type/role mismatch", bucket="harness")
+    # history: the same envelope is first verified legitimately - for the role it declares, and as a plain signable -
+    # and only then presented for the other role
+    utype = U["signed"]["type"]
+    RV.outcome(A.verify_delegation, utype, copy.deepcopy(U), copy.deepcopy(T), gpg=gpg)
+    RV.outcome(A.verify_delegation, utype, U, T, gpg=gpg)
+    RV.outcome(A.verify_signable, U, T["signed"]["delegations"][role]["pubkeys"], T["signed"]["delegations"][role]["threshold"], gpg=gpg)
+    if utype == "root" and gpg:
+        RV.outcome(A.verify_root, T, U)
     observed, exc = RV.outcome(A.verify_delegation, role, U, T, gpg=gpg)
     if observed == "accept":
         raise Violation("metadata declaring type %r was accepted as role %r (signature map has %d entries, "
